@@ -197,6 +197,9 @@ def install(ip):
     v, c = args
     if isinstance(c, tuple):
       return any(_isinstance(ip, [v, x], {}) for x in c)
+    if isinstance(v, Model) and not isinstance(v, (PyList, SymSeq, SymMap, SymSet, PySetLit)) and \
+        not hasattr(v, 'is_float') and ip.ext.get('isinstance'):
+      return ip.ext['isinstance'](ip, v, c)
     if isinstance(c, Builtin):
       if c.name == 'str':
         if isinstance(v, str) or (is_z3(v) and v.sort() == Atom):
